@@ -620,6 +620,13 @@ func (e *Engine) modelOnce(st *State, fr *Frame, once Val, f Val, pos token.Pos,
 	}
 	// branch B: runs now
 	st.trace = append(st.trace, "once:first")
+	if spec != nil {
+		env := mkEnv(st)
+		for _, c := range spec.FirstPre {
+			e.assumptions["state before the first sync.Once call of "+spec.Type+"."+spec.Field+" (assumed): "+c.Text] = true
+			st.assume(env.evalBool(c.Expr))
+		}
+	}
 	if f.C == nil {
 		e.unknownCall(st, "callback:once.Do", nil, nil, false)
 		return
